@@ -191,6 +191,9 @@ func buildShared(seed int64, nmaps, ndocs int) *sharedObjects {
 		s.mapsSS = append(s.mapsSS, ss)
 		s.objs[fmt.Sprintf("mapss%d", i)] = ss
 	}
+	// maps that were never written (what `env: {}` parses to, `new(Map)`, a struct field left alone): observers leave them untouched
+	s.objs["zeromapss"] = new(ordered.MapSS)
+	s.objs["zeromapsa"] = &ordered.MapSA{}
 	// a shared, signed pipeline
 	for {
 		g := newDocGen(rng)
@@ -311,7 +314,22 @@ func (s *sharedObjects) observerOps() []c19Op {
 			c19Op{"MarshalJSONSS", name, func() string { b, err := json.Marshal(m); return digest(string(b), err) }},
 		)
 	}
+	zss, zsa := s.objs["zeromapss"].(*ordered.MapSS), s.objs["zeromapsa"].(*ordered.MapSA)
 	ops = append(ops,
+		c19Op{"ZeroMapSS", "zeromapss", func() string {
+			v, ok := zss.Get("a")
+			n := 0
+			zss.Range(func(k, v string) error { n++; return nil })
+			jb, _ := json.Marshal(zss)
+			yb, _ := yaml.Marshal(zss)
+			return digest(v, ok, zss.Contains("a"), zss.Len(), zss.IsZero(), n, len(zss.ToMap()), ordered.Equal(zss, zss), string(jb), string(yb))
+		}},
+		c19Op{"ZeroMapSA", "zeromapsa", func() string {
+			v, ok := zsa.Get("a")
+			jb, _ := json.Marshal(zsa)
+			yb, _ := yaml.Marshal(zsa)
+			return digest(v, ok, zsa.Contains("a"), zsa.Len(), zsa.IsZero(), len(zsa.ToMap()), ordered.Equal(zsa, zsa), repDigest(ordered.ToMapRecursive(zsa)), string(jb), string(yb))
+		}},
 		c19Op{"PipelineJSON", "pipeline", func() string { b, err := json.Marshal(s.pipe); return digest(string(b), err) }},
 		c19Op{"PipelineYAML", "pipeline", func() string { b, err := yaml.Marshal(s.pipe); return digest(string(b), err) }},
 		c19Op{"FullSource", "pipeline", func() string {
@@ -406,6 +424,27 @@ func ownWork(src, keyAlg, repo string, item, nitems int) []c19Op {
 			b, _ := json.Marshal(m)
 			t, _ := json.Marshal(c19Defaults)
 			return digest(string(b), m.Len(), string(t))
+		}},
+		{"VerifyRefusals", "", func() string {
+			// verifications that are REFUSED (a genuine signature that lacks one mandatory field) next to each other: what one
+			// refusal leaves behind must not soften the next check, in this goroutine or in any other
+			st := func() *signature.CommandStepWithInvariants {
+				return &signature.CommandStepWithInvariants{CommandStep: pipeline.CommandStep{Command: fmt.Sprintf("echo own-%d", item), Env: map[string]string{"A": "1"}}, RepositoryURL: repo}
+			}
+			var b strings.Builder
+			for _, drop := range []string{"matrix", "plugins", "repository_url", "env", "command"} {
+				sg, err := signature.Sign(ctx, getKey(keyAlg, "K1").sign, &partialFielder{inner: st(), drop: drop})
+				if err != nil {
+					return digest("signerr", err.Error())
+				}
+				tampered := st()
+				if drop == "command" {
+					tampered.Command = "echo tampered"
+				}
+				verr := signature.Verify(ctx, sg, keySetFor(keyAlg, "signer"), tampered)
+				fmt.Fprintf(&b, "%s:%v;", drop, verr == nil)
+			}
+			return digest(b.String())
 		}},
 		{"ParseUninferable", "", func() string {
 			// a step whose kind cannot be inferred, at a position that is this work item's own: the warning names
